@@ -78,6 +78,13 @@ def wholerun_record(ctx, res, rec):
         if int(rec["row"]["Days Emitting"]) != int(rec["base"]["Days Emitting"]):
             ctx.violate("C03:nonrepairable-affected", "non-repairable emission: days emitting differ from baseline", inp)
     check(ctx, "wholerun", rec["repairable"], rec["start"], rec["nrd"], r, b, inp)
+    if not EC.tagging_methods(res.cfg, rec["prog"]):
+        ctx.count("wholerun_records_of_programs_that_cannot_tag:%s" % ("no-methods" if not next(p_["methods"] for p_ in res.cfg["programs"] if p_["name"] == rec["prog"]) else "coverage-0"))
+        if (r["status"], r["activeDays"], r["emitDays"]) != (b["status"], b["activeDays"], b["emitDays"]):
+            ctx.violate("C03:zero-coverage-program-differs-from-baseline",
+                        "a program none of whose methods can see any emission ends a leak differently from the no-LDAR run", inp)
+    if rec["nrd"] <= 2:
+        ctx.count("wholerun_records_duration<=2")
     ctx.count("wholerun_oracle_evaluated")
     ctx.count("wholerun_oracle:%s%s" % ("repairable" if rec["repairable"] else "non-repairable",
                                         "-intermittent" if rec["intermittent"] else ""))
